@@ -7,11 +7,46 @@ COMMON_ASSUME = [
 ]
 
 TIERS = {
+    "C02": {"quick": {"runs": 400, "budget_s": 80, "run_timeout_s": 300},
+            "thorough": {"runs": 6000, "budget_s": 900, "run_timeout_s": 600}},
+    "C01": {"quick": {"runs": 400, "budget_s": 80, "run_timeout_s": 300},
+            "thorough": {"runs": 6000, "budget_s": 900, "run_timeout_s": 600}},
     "C06": {"quick": {"runs": 220, "budget_s": 75, "run_timeout_s": 240},
             "thorough": {"runs": 3000, "budget_s": 900, "run_timeout_s": 400}},
 }
 
+GFI_COMPONENTS = {"real": ["genjax.core (Fn handlers, Distribution, Vmap, Scan, Cond, traces)",
+                           "genjax.pjax (stage, Seed, ModularVmap, batch rules)", "TFP log-densities",
+                           "TFP samplers (REAL regime)"],
+                  "stub": ["SCRIPTED regime: Seed key-splitting and leaf samplers replaced by sim/scripted.py + reference sampler",
+                           "sim/jaxcompat.py API adapter (JAX only)"],
+                  "regimes": "REAL + SCRIPTED"}
+
 META = {
+    "C02": {
+        "LEVEL": "exploration",
+        "RULE": "case = (generated program, argument, seeded history of generate calls each with a seeded subset of the "
+                "address set as constraints (none / all / partial / inside vectorised or scanned sub-calls / whole sub-call "
+                "missing / None) under eager, jit, vmap-of-keys or SCRIPTED randomness; outcome trees for discrete programs); "
+                "distinct = distinct (program shape, per-op configuration and constraint mode); non-trivial = program has a combinator",
+        "COMPONENTS": GFI_COMPONENTS,
+        "ASSUMPTIONS": COMMON_ASSUME + ["PPL-ref is the oracle; brute-force marginals enumerate all completions of the unconstrained discrete sites"],
+        "REQUIRED_PROBES": {"quick": ["generate", "scripted", "none", "all", "partial", "tree_complete"],
+                            "thorough": ["generate", "scripted", "none", "all", "partial", "tree_complete", "subcall_missing", "none_arg"]},
+    },
+    "C01": {
+        "LEVEL": "exploration",
+        "RULE": "case = (generated program over site/call/vsite/vcall/scan/cond blocks with shared or disjoint Cond "
+                "addresses, kwargs and event-shaped sites; argument; seeded history of simulate (eager/jit/vmap/jit-vmap), "
+                "scripted simulate, assess on reference-generated choice maps, outcome trees, faults); distinct = distinct "
+                "(program shape, operation-kind history); non-trivial = program contains a combinator or a fault fired",
+        "COMPONENTS": GFI_COMPONENTS,
+        "ASSUMPTIONS": COMMON_ASSUME + [
+            "PPL-ref (sim/ref.py: numpy float64, Python loops, hand-written densities) is the oracle",
+            "float32 log-densities compared with rtol=atol=3e-4; generated parameters clamped away from degenerate regimes"],
+        "REQUIRED_PROBES": {"quick": ["simulate", "scripted", "assess_ref", "tree_complete"],
+                            "thorough": ["simulate", "scripted", "assess_ref", "tree_complete", "cond_dead_branch"]},
+    },
     "C06": {
         "LEVEL": "exploration",
         "RULE": "case = (generated probabilistic function over nested scan/cond/modular_vmap/nested seed/@gen calls, key, "
